@@ -24,7 +24,9 @@ import (
 	mysql_driver "github.com/go-sql-driver/mysql"
 	"github.com/rs/zerolog"
 
+	app_dcs "github.com/yandex/mysync/internal/app/dcs"
 	nodestate "github.com/yandex/mysync/internal/app/node_state"
+	"github.com/yandex/mysync/internal/app/optimization"
 	"github.com/yandex/mysync/internal/app/resetup"
 	"github.com/yandex/mysync/internal/config"
 	"github.com/yandex/mysync/internal/dcs"
@@ -269,6 +271,16 @@ func dvalGal(path string, b []byte) string {
 		}
 	case pathRecovery:
 		return "VUnit"
+	case "optimization_nodes":
+		if len(parts) > 1 {
+			var st struct {
+				Status string `json:"status"`
+			}
+			if json.Unmarshal(b, &st) != nil {
+				return "(VOpaque 1)"
+			}
+			return "(VOpt " + vk.B(st.Status == "enabled") + ")"
+		}
 	}
 	return "(VOpaque 0)"
 }
@@ -561,7 +573,14 @@ func newVApp(w *vk.World, d *memDCS, o vAppOpts) *vApp {
 		panic(err)
 	}
 	d.silent = false
-	app.initializeOptimizationModule()
+	// same wiring as initializeOptimizationModule, with the adapter's one-time
+	// `create optimization_nodes` done during setup
+	d.silent = true
+	ad := app_dcs.NewOptimizationDCSAdapter(d)
+	_, _ = ad.GetHosts()
+	d.silent = false
+	app.optSyncer = optimization.NewSyncer(logger, cfg.OptimizationConfig, ad)
+	app.optController = optimization.NewController(cfg.OptimizationConfig, logger, ad, 3*time.Second)
 	return &vApp{app: app, cfg: &cfg, dcs: d, dir: dir}
 }
 
@@ -635,7 +654,7 @@ func cfgGal(c *config.Config) string {
 		"; c_priority_choice_max_lag := " + vk.Z(int64(c.PriorityChoiceMaxLag/time.Second)) +
 		"; c_wait_repl_start_timeout := " + d(c.WaitReplicationStartTimeout) + "; c_slave_catch_up_timeout := " + d(c.SlaveCatchUpTimeout) +
 		"; c_manager_switchover := " + vk.B(c.ManagerSwitchover) + "; c_manager_election_delay := " + d(c.ManagerElectionDelayAfterQuorumLoss) +
-		"; c_repl_mon := " + vk.B(c.ReplMon) + " |}"
+		"; c_repl_mon := " + vk.B(c.ReplMon) + "; c_master_first_adjust := " + vk.B(c.MasterFirstAdjustSSOrder) + " |}"
 }
 
 func (v *vApp) close() {
@@ -649,9 +668,45 @@ func (v *vApp) close() {
 
 const vUUIDPrefix = "6dbc5d2c-5d88-11ee-8c99-0242ac12000"
 
-func hostUUID(h string) string { return vUUIDPrefix + fmt.Sprint(hostN(h)%4) }
+func hostUUID(h string) string { return vUUIDs[1+int(hostN(h)-1)%3] }
 func gset(h string, iv string) string {
 	return hostUUID(h) + ":" + iv
+}
+
+// timings / positions of the process, as the model's association lists
+func failedAtGal(t *Timings, t0 int64) string {
+	hs := []string{}
+	for h, v := range t.m[NodeFailedAt] {
+		if !v.IsZero() {
+			hs = append(hs, h)
+		}
+	}
+	sort.Strings(hs)
+	items := []string{}
+	for _, h := range hs {
+		items = append(items, vk.T(hostGal(h), vk.Z(t.m[NodeFailedAt][h].UnixNano()-t0)))
+	}
+	return vk.L(items)
+}
+func positionsGal(m map[string]string) string {
+	hs := []string{}
+	for h := range m {
+		hs = append(hs, h)
+	}
+	sort.Strings(hs)
+	items := []string{}
+	for _, h := range hs {
+		v := m[h] // "<file><19-digit pos>"
+		if len(v) < 19 {
+			continue
+		}
+		pos, _ := strconv.ParseInt(v[len(v)-19:], 10, 64)
+		items = append(items, vk.T(hostGal(h), vk.T(vk.BinlogGal(v[:len(v)-19]), vk.Z(pos))))
+	}
+	return vk.L(items)
+}
+func anMemGal(a *App, t0 int64) string {
+	return "{| am_failed_at := " + failedAtGal(a.t, t0) + "; am_positions := " + positionsGal(a.slaveReadPositions) + " |}"
 }
 
 // nsGal prints a nodestate.NodeState as the model's node_state.
